@@ -1,4 +1,5 @@
 import FCA.Proofs.CboInst
+import FCA.Props.C03
 import FCA.Proofs.CboPlain
 /-
 Property C04 — all concept generators agree on the set of concepts.
@@ -143,6 +144,27 @@ theorem C04_agree_length {K : Ctx} (h : K.WF) : (fcbo K).length = (fcboDual K).l
   (C04_agree h).length_eq
 
 /-! ### non-vacuity: the doctest context of `fcbo.py` (4 objects, 6 properties, 12 concepts) -/
+
+/-- the list / iterator wrappers yield the very pairs of `fast_generate_from`, in the same order -/
+theorem C04_wrappers (K : Ctx) : iterconcepts K = fcbo K ∧ getConcepts K = fcbo K := by
+  constructor <;> simp [iterconcepts, getConcepts]
+
+/-- all generators agree with `context.lattice` as sets of (extent, intent) pairs, each pair once -/
+theorem C04_agree_lattice {K : Ctx} (h : K.WF) :
+    (fcbo K).Perm ((mkLattice K).map fun c => (c.extent, c.intent)) ∧
+    (fcboDual K).Perm ((mkLattice K).map fun c => (c.extent, c.intent)) ∧
+    (getConcepts K).Perm ((mkLattice K).map fun c => (c.extent, c.intent)) ∧
+    (iterconcepts K).Perm ((mkLattice K).map fun c => (c.extent, c.intent)) := by
+  have hl := C03_lattice_nodup K h
+  have h1 : (fcbo K).Perm ((mkLattice K).map fun c => (c.extent, c.intent)) :=
+    (List.perm_ext_iff_of_nodup (C04_fcbo_nodup h) hl).mpr fun p => by
+      rw [C04_fcbo_iff h]; exact (C03_lattice_iff K h p.1 p.2).symm
+  have h2 : (fcboDual K).Perm ((mkLattice K).map fun c => (c.extent, c.intent)) :=
+    (List.perm_ext_iff_of_nodup (C04_fcboDual_nodup h) hl).mpr fun p => by
+      rw [C04_fcboDual_iff h]; exact (C03_lattice_iff K h p.1 p.2).symm
+  refine ⟨h1, h2, ?_, ?_⟩
+  · rw [(C04_wrappers K).2]; exact h1
+  · rw [(C04_wrappers K).1]; exact h1
 
 /-- `A|X|X|X| | | |`, `B|X| |X|X|X|X|`, `C|X|X| | |X| |`, `D| |X|X| | | |` -/
 def C04_K : Ctx := mkCtx 4 6 #[7, 61, 19, 6]
